@@ -78,6 +78,7 @@ func c05Catalogue() []c05Val {
 		{"[]int", []int{1, 2}}, {"[]int64 big", []int64{1 << 40, 3}}, {"[]string", []string{"a", "3"}}, {"[]bool", []bool{true, false}}, {"[]float32", []float32{1.5}},
 		{"[]float64 NaN", []float64{2.5, math.NaN()}}, {"[]time", []time.Time{tm}}, {"[]interface mixed", []interface{}{1, "x", nil}}, {"[]int empty", []int{}}, {"nil []int", []int(nil)},
 		{"struct", struct{ X int }{1}}, {"map", map[string]interface{}{"a": 1}}, {"*struct", &struct{ X int }{2}}, {"complex", complex(1, 2)}, {"[]byte", []byte("hi")}, {"rune", 'x'},
+		{"string Inf", "Inf"}, {"string -Infinity", "-Infinity"}, {"string +Inf", "+Inf"},
 	}
 }
 
@@ -363,6 +364,7 @@ func runC05(c *run.Ctx) {
 		}
 	}
 	ggql.MaxResolveDepth = 100
+	c05Subscription(c, s, cat, flags)
 	// hostile values inside generated nested documents
 	nested := c.N(800, 30000)
 	for i := 0; i < nested && !c.TooMany(); i++ {
@@ -441,4 +443,154 @@ func c05AllLeafSites(s *model.Schema, g *model.Graph) []leafSite {
 		}
 	}
 	return out
+}
+
+// ---------------------------------------------------------------- leaf-typed subscription fields
+
+type c05SubRoot struct{ subs *c05Subs }
+
+func (r *c05SubRoot) Resolve(field *ggql.Field, args map[string]interface{}) (interface{}, error) {
+	if field.Name == "subscription" {
+		return r.subs, nil
+	}
+	return nil, nil
+}
+
+type c05Subs struct{ last *c05Subscriber }
+
+func (s *c05Subs) Resolve(field *ggql.Field, args map[string]interface{}) (interface{}, error) {
+	s.last = &c05Subscriber{}
+	return ggql.NewSubscription(s.last, field, args), nil
+}
+
+type c05Subscriber struct{ got []interface{} }
+
+func (s *c05Subscriber) Send(v interface{}) error { s.got = append(s.got, v); return nil }
+func (s *c05Subscriber) Match(string) bool        { return true }
+func (s *c05Subscriber) Unsubscribe()             {}
+
+// c05Subscription: what a subscriber is sent is response data as well. Subscription fields of every leaf type and wrapper
+// (no selection set) receive the hostile catalogue as events: the message must be the reference conversion of the event, or
+// null with AddEvent reporting an error - never the unconverted Go value.
+func c05Subscription(c *run.Ctx, s *model.Schema, cat []c05Val, flags ref.Flags) int {
+	s2 := *s
+	sub := &model.TypeDef{Kind: model.Object, Name: "Subscription"}
+	for _, f := range s.Type("Query").Fields {
+		if f.Name != "obj" && f.Name != "objs" {
+			sub.Fields = append(sub.Fields, &model.FieldDef{Name: f.Name, Type: f.Type})
+		}
+	}
+	s2.Types = append(append([]*model.TypeDef{}, s.Types...), sub)
+	s2.Subscription = "Subscription"
+	s2.Reindex()
+	sdl := s2.SDL(model.SDLOpts{})
+	done := 0
+	n := c.N(900, 40000)
+	for i := 0; i < n && !c.TooMany(); i++ {
+		r := c.Rand(950000 + i)
+		ti, wi := r.Intn(len(c05Types)), r.Intn(len(c05Wrappers))
+		fname := fmt.Sprintf("f%d_%d", ti, wi)
+		ft := c05Wrap(c05Types[ti], c05Wrappers[wi])
+		cv := cat[r.Intn(len(cat))]
+		var ev interface{} = cv.v
+		switch c05Wrappers[wi] {
+		case "[T]":
+			if r.Intn(2) == 0 {
+				ev = []interface{}{cv.v, nil, cv.v}
+			}
+		case "[T!]":
+			ev = []interface{}{cv.v}
+		case "[[T]]":
+			ev = []interface{}{[]interface{}{cv.v}, []interface{}{}, nil}
+		}
+		if _, isB := ev.([]byte); isB {
+			continue // a []byte where a list is declared: a byte string or a list of small integers - the statement leaves that convention open
+		}
+		subs := &c05Subs{}
+		root := ggql.NewRoot(&c05SubRoot{subs: subs})
+		if err := root.ParseString(sdl); err != nil {
+			c.Violation("c05-schema-rejected", map[string]interface{}{"error": err.Error(), "sdl": sdl})
+			return done
+		}
+		text := "subscription { " + fname + " }"
+		res := root.ResolveString(text, "", nil)
+		if res["errors"] != nil || subs.last == nil {
+			c.Violation("c05-subscription-rejected", map[string]interface{}{"document": text, "response": fmt.Sprint(res)})
+			continue
+		}
+		var aerr error
+		pv, _ := run.Protect(func() { _, aerr = root.AddEvent("t", ev) })
+		done++
+		c.Eval(fmt.Sprintf("sub|%s|%s|%d", fname, cv.name, i%3), true)
+		c.Count("subscription_events_of_leaf_typed_fields", 1)
+		// the expectation: the same value under a query field of that type
+		g := &model.Graph{}
+		gr := &model.Node{ID: 0, Type: "__root", F: map[string]interface{}{}}
+		q := &model.Node{ID: 1, Type: "Query", F: map[string]interface{}{fname: toVList(ev)}}
+		gr.F["query"] = q
+		g.Root, g.Nodes = gr, []*model.Node{gr, q}
+		doc := &model.Doc{Ops: []*model.Op{{Kind: "query", Shorthand: true, Sels: []model.Sel{&model.Field{Name: fname}}}}}
+		rep := func(diag string, exp *ref.Result) {
+			c.Violation("c05-subscription-event", map[string]interface{}{"declared": ft.String(), "event": fmt.Sprintf("%s = %T(%v)", cv.name, ev, ev), "subscription": text, "diag": diag,
+				"message": fmt.Sprintf("%#v", subs.last.got), "add_event_error": fmt.Sprint(aerr), "expected": exp.Describe()})
+		}
+		exp := ref.Execute(s, doc, "", nil, g, nil, ref.Flags{})
+		if pv != nil {
+			rep(fmt.Sprintf("AddEvent panics: %v", pv), exp)
+			continue
+		}
+		if len(subs.last.got) != 1 {
+			rep(fmt.Sprintf("%d messages for one event", len(subs.last.got)), exp)
+			continue
+		}
+		got := ref.Canon(subs.last.got[0])
+		if gm, isM := got.(map[string]interface{}); isM {
+			if inner, has := gm[fname]; has && len(gm) == 1 {
+				got = inner
+			}
+		}
+		judge := func(e *ref.Result) string {
+			want, _ := e.Data.(map[string]interface{})
+			if !ref.Match(want[fname], got) {
+				return "message differs at " + ref.Mismatch(want[fname], got)
+			}
+			mustErr := false
+			for _, x := range e.Errs {
+				if x.Kind != "optional" {
+					mustErr = true
+				}
+			}
+			if mustErr && aerr == nil {
+				return "the conversion fails (null in the message) but AddEvent reports no error"
+			}
+			return ""
+		}
+		d := judge(exp)
+		if d != "" && flags != (ref.Flags{}) {
+			if judge(ref.Execute(s, doc, "", nil, g, nil, flags)) == "" {
+				c.Count("subscription_events_explained_by_open_findings", 1)
+				continue
+			}
+		}
+		if d != "" {
+			rep(d, exp)
+			continue
+		}
+		// shape monitor, independent of the reference
+		if tw := typedWalk(s, ft, got, fname, flags.EnumUndeclared); tw != "" {
+			rep("ill-typed message: "+tw, exp)
+		}
+	}
+	return done
+}
+
+func toVList(v interface{}) interface{} {
+	if l, isL := v.([]interface{}); isL {
+		out := make(model.VList, len(l))
+		for i, e := range l {
+			out[i] = toVList(e)
+		}
+		return out
+	}
+	return v
 }
